@@ -56,6 +56,8 @@ func Main(args []string) int {
 		return cmdList(args[1:])
 	case "replay":
 		return cmdReplay(args[1:])
+	case "scenario":
+		return cmdScenario(args[1:])
 	}
 	fmt.Fprintln(os.Stderr, "unknown command", args[0])
 	return 2
